@@ -511,14 +511,17 @@ func contextClose(t *tape.Tape, cfg sim.Config) (res sim.Result) {
 	}
 	// optionally an importer of the owner's memory whose start function traps: the failed instantiation
 	// must leave nothing behind that keeps the owner's memory from being released with the owner
-	failedImporter := t.Choose(6) // 1: fails on an out-of-bounds data segment, 2: its start function traps
-	if failedImporter > 2 {
+	failedImporter := t.Choose(8) // 1: fails on an out-of-bounds data segment, 2: its start function traps, 3: a LATER import of it does not resolve
+	if failedImporter > 3 {
 		failedImporter = 0
 	}
 	if failedImporter > 0 {
 		fm := &wasmb.Module{}
 		fm.Imports = append(fm.Imports, wasmb.Import{Module: "own", Name: "mem", Kind: wasmb.KindMemory, Mem: wasmb.Limits{Min: 1, Max: 2, HasMax: true}})
-		if failedImporter == 1 {
+		if failedImporter == 3 {
+			// the memory import resolves, the next import (same module, no such export) does not
+			fm.ImportFunc("own", "nosuch", nil, nil)
+		} else if failedImporter == 1 {
 			fm.Datas = []wasmb.Data{{Offset: wasmb.ConstI32(0x7ffffff0), Bytes: []byte{1}}}
 		} else {
 			st := fm.AddFunc(nil, nil, nil, (&wasmb.Code{}).Unreachable().B, "")
